@@ -35,6 +35,9 @@ type gwork struct {
 	Targets  []int       `json:"targets"` // pipeline mode: tile matrix ids
 	SRS      gpkgh.SRS   `json:"srs"`
 	Table    gpkgh.Table `json:"table"` // schema + the rows handed to the writer(s)
+	// More: further tables written one after another through the same target handles,
+	// the way main.go switches target.Table between calls of ProcessFeatures
+	More []gpkgh.Table `json:"more_tables,omitempty"`
 	// SpareCap: the simulated reader builds its column slices by appending (as the real
 	// reader does), so they may carry spare capacity
 	SpareCap bool   `json:"spare_cap"`
@@ -60,8 +63,12 @@ var sqlKeywords = map[string]bool{"as": true, "by": true, "if": true, "in": true
 	"add": true, "all": true, "and": true, "asc": true, "end": true, "for": true, "key": true, "not": true, "row": true, "set": true, "do": true}
 
 func ident(r *simrt.RNG, used map[string]bool) string {
-	const first = "abcdefghijklmnopqrstuvwxyz"
-	const rest = "abcdefghijklmnopqrstuvwxyz0123456789_"
+	first := "abcdefghijklmnopqrstuvwxyz"
+	rest := "abcdefghijklmnopqrstuvwxyz0123456789_"
+	if r.Chance(0.25) { // mixed case now and then
+		first += "ABCDEFGHIJKLMNOPQRSTUVWXYZ"
+		rest += "ABCDEFGHIJKLMNOPQRSTUVWXYZ"
+	}
 	for {
 		n := 1 + r.Intn(10)
 		b := []byte{first[r.Intn(len(first))]}
@@ -72,10 +79,10 @@ func ident(r *simrt.RNG, used map[string]bool) string {
 		if len(s) < 4 {
 			s += "_c" // keep clear of SQL keywords
 		}
-		if sqlKeywords[s] || used[s] || strings.HasPrefix(s, "gpkg_") || strings.HasPrefix(s, "rtree_") || strings.HasPrefix(s, "sqlite_") {
+		if sqlKeywords[strings.ToLower(s)] || used[strings.ToLower(s)] || strings.HasPrefix(strings.ToLower(s), "gpkg_") || strings.HasPrefix(strings.ToLower(s), "rtree_") || strings.HasPrefix(strings.ToLower(s), "sqlite_") {
 			continue
 		}
-		used[s] = true
+		used[strings.ToLower(s)] = true // SQLite identifiers are case-insensitive
 		return s
 	}
 }
@@ -107,7 +114,7 @@ func genVal(r *simrt.RNG, typ string, notnull bool, row int) gpkgh.Val {
 			return gpkgh.IntVal(int64(r.Uint64()>>2) - (1 << 61)) // beyond 2^53
 		}
 		return gpkgh.IntVal(int64(r.Uint64()%2000001) - 1000000)
-	case "REAL", "DOUBLE", "FLOAT":
+	case "REAL", "DOUBLE", "FLOAT", "DOUBLE PRECISION":
 		if r.Chance(0.15) {
 			return gpkgh.FloatVal(float64(int64(r.Uint64()%2001) - 1000)) // a whole number stays REAL
 		}
@@ -194,6 +201,59 @@ func genGeom(r *simrt.RNG, typ string, allowEmpty bool, base float64) *gpkgh.G {
 	return g
 }
 
+// genExtraTable: a second table with its own schema and geometry type.
+func genExtraTable(r *simrt.RNG, used map[string]bool, srs gpkgh.SRS, p int, k int) gpkgh.Table {
+	t := gpkgh.Table{Name: ident(r, used), Spatial: true, SRSID: srs.ID}
+	t.GeomType = geomTypes[r.Intn(len(geomTypes))]
+	t.GeomCol = ident(r, used)
+	t.Columns = []gpkgh.Column{{Name: ident(r, used), Type: "INTEGER", PK: true}}
+	for i, n := 0, r.Intn(3); i < n; i++ {
+		t.Columns = append(t.Columns, gpkgh.Column{Name: ident(r, used), Type: []string{"INTEGER", "REAL", "TEXT"}[r.Intn(3)]})
+	}
+	pos := 1 + r.Intn(len(t.Columns))
+	t.Columns = append(t.Columns[:pos], append([]gpkgh.Column{{Name: t.GeomCol, Type: t.GeomType}}, t.Columns[pos:]...)...)
+	c := r.Intn(2*p + 2)
+	base := float64(1000000*k + r.Intn(500000))
+	fid := int64(1 + r.Intn(50))
+	for i := 0; i < c; i++ {
+		var row gpkgh.Row
+		for _, col := range t.Columns {
+			if col.Name == t.GeomCol {
+				continue
+			}
+			if col.PK {
+				row.Vals = append(row.Vals, gpkgh.IntVal(fid))
+				fid += int64(1 + r.Intn(3))
+				continue
+			}
+			row.Vals = append(row.Vals, genVal(r, col.Type, false, i))
+		}
+		row.Geom = genGeom(r, t.GeomType, true, base)
+		switch row.Geom.T {
+		case gpkgh.TPolygon:
+			if len(row.Geom.L) > 0 && len(row.Geom.L[0]) > 0 {
+				row.Geom.L[0][0] = [2]float64{base + float64(i*8)*2, base/2 + 0.5}
+			}
+		case gpkgh.TMultiPolygon:
+			for pi := range row.Geom.M {
+				if len(row.Geom.M[pi]) > 0 && len(row.Geom.M[pi][0]) > 0 {
+					row.Geom.M[pi][0][0] = [2]float64{base + float64(i*8+pi)*2, base/2 + 0.5}
+				}
+			}
+		}
+		t.Rows = append(t.Rows, row)
+	}
+	return t
+}
+
+func allTables(w *gwork) []*gpkgh.Table {
+	out := []*gpkgh.Table{&w.Table}
+	for i := range w.More {
+		out = append(out, &w.More[i])
+	}
+	return out
+}
+
 func genWork(seed uint64) (gwork, simrt.FaultPlan, simrt.MapPolicy, uint64) {
 	r := simrt.NewRNG(seed, "gpkgsim-workload")
 	var w gwork
@@ -208,10 +268,10 @@ func genWork(seed uint64) (gwork, simrt.FaultPlan, simrt.MapPolicy, uint64) {
 	t := gpkgh.Table{Name: ident(r, used), Spatial: true, SRSID: w.SRS.ID}
 	t.GeomType = geomTypes[r.Intn(len(geomTypes))]
 	t.GeomCol = ident(r, used)
-	pk := gpkgh.Column{Name: ident(r, used), Type: "INTEGER", PK: true, NotNull: r.Chance(0.5)}
+	pk := gpkgh.Column{Name: ident(r, used), Type: "INTEGER", PK: true, NotNull: r.Chance(0.5), AutoInc: r.Chance(0.4)}
 	var attrs []gpkgh.Column
 	for i, n := 0, r.Intn(5); i < n; i++ {
-		typ := []string{"INTEGER", "REAL", "TEXT", "DOUBLE", "MEDIUMINT", "TEXT(20)", "Integer", "text", "Real"}[r.Intn(9)]
+		typ := []string{"INTEGER", "REAL", "TEXT", "DOUBLE", "MEDIUMINT", "TEXT(20)", "Integer", "text", "Real", "DOUBLE PRECISION", "VARCHAR(10)"}[r.Intn(11)]
 		attrs = append(attrs, gpkgh.Column{Name: ident(r, used), Type: typ, NotNull: r.Chance(0.3)})
 	}
 	geomNotNull := r.Chance(0.3)
@@ -312,6 +372,9 @@ func genWork(seed uint64) (gwork, simrt.FaultPlan, simrt.MapPolicy, uint64) {
 		t.Rows = append(t.Rows, row)
 	}
 	w.Table = t
+	if r.Chance(0.3) {
+		w.More = append(w.More, genExtraTable(r, used, w.SRS, p, 1))
+	}
 	w.SpareCap = r.Chance(0.5)
 
 	fr := simrt.NewRNG(seed, "gpkgsim-faults")
@@ -388,8 +451,7 @@ func shifted(p geom.Polygon, tm int) geom.Polygon {
 }
 
 // expectedFor builds the reference model of one target file.
-func expectedFor(w *gwork, tm int, pipeline bool) *gpkgh.ExpTable {
-	t := &w.Table
+func expectedFor(t *gpkgh.Table, tm int, pipeline bool) *gpkgh.ExpTable {
 	e := &gpkgh.ExpTable{Name: t.Name, Columns: t.Columns, GeomCol: t.GeomCol, GeomType: t.GeomType, SRSID: t.SRSID}
 	for i, row := range t.Rows {
 		er := gpkgh.ExpRow{Vals: row.Vals, Geom: row.Geom, NullGeom: row.Geom == nil, Label: fmt.Sprintf("feature %d", i)}
@@ -438,7 +500,7 @@ func runOne(t *testing.T, w *gwork, fp simrt.FaultPlan, mp simrt.MapPolicy, mapS
 	defer os.RemoveAll(dir)
 	srcPath := filepath.Join(dir, "source.gpkg")
 	// the source file carries the schema (and the rows, unused here: the reader is simulated)
-	src := gpkgh.Source{SRS: []gpkgh.SRS{w.SRS}, Tables: []gpkgh.Table{w.Table}}
+	src := gpkgh.Source{SRS: []gpkgh.SRS{w.SRS}, Tables: append([]gpkgh.Table{w.Table}, w.More...)}
 	if err := gpkgh.WriteSource(srcPath, &src); err != nil {
 		simh.Fatalf("writing the source GeoPackage: %v", err)
 	}
@@ -451,20 +513,25 @@ func runOne(t *testing.T, w *gwork, fp simrt.FaultPlan, mp simrt.MapPolicy, mapS
 	for _, id := range ids {
 		paths[id] = filepath.Join(dir, fmt.Sprintf("target_%d.gpkg", id))
 	}
-	var feats []*feat
-	for _, row := range w.Table.Rows {
-		feats = append(feats, featOf(row, w.SpareCap))
+	tbls := allTables(w)
+	featsOf := map[string][]*feat{}
+	total := 0
+	for _, tb := range tbls {
+		for _, row := range tb.Rows {
+			featsOf[tb.Name] = append(featsOf[tb.Name], featOf(row, w.SpareCap))
+			total++
+		}
 	}
 	simrt.SetMapOrder(mp, mapSeed)
-	opt := simrt.Options{Seed: seed, Faults: fp, Tape: tape, Replay: replay, Trace: trace, TapeSink: tapeSink, MaxSteps: 2000 + 400*(len(feats)+2)*(len(ids)+1)}
+	opt := simrt.Options{Seed: seed, Faults: fp, Tape: tape, Replay: replay, Trace: trace, TapeSink: tapeSink, MaxSteps: 4000 + 400*(total+2*len(tbls))*(len(ids)+1)}
 	var leak string
 	rr.sim, leak = simh.RunBubble(t, opt, func() {
 		source := gpkg.SourceGeopackage{}
 		source.Init(srcPath)
 		tables := source.GetTableInfo()
 		source.Close()
-		if len(tables) != 1 {
-			panic(fmt.Sprintf("gpkgsim: source reports %d tables", len(tables)))
+		if len(tables) != len(tbls) {
+			panic(fmt.Sprintf("gpkgsim: source reports %d tables, %d written", len(tables), len(tbls)))
 		}
 		targets := map[int]*gpkg.TargetGeopackage{}
 		for _, id := range ids {
@@ -473,58 +540,73 @@ func runOne(t *testing.T, w *gwork, fp simrt.FaultPlan, mp simrt.MapPolicy, mapS
 			if err := tg.CreateTables(tables); err != nil {
 				panic(fmt.Sprintf("gpkgsim: CreateTables: %v", err))
 			}
-			tg.Table = tables[0]
 			targets[id] = tg
 		}
-		if !pipeline {
-			ch := make(chan processing.Feature)
-			go (&simSource{feats: feats}).ReadFeatures(ch)
-			targets[0].WriteFeatures(ch)
-		} else {
-			pt := map[int]processing.Target{}
-			for id, tg := range targets {
-				pt[id] = tg
-			}
-			rowIdx := map[*feat]int{}
-			for i, f := range feats {
-				rowIdx[f] = i
-			}
-			// the snap stub needs to know which row a polygon belongs to: rows carry
-			// distinct coordinates, so look the polygon up by its first vertex
-			byFirst := map[[2]float64][2]int{}
-			for i, row := range w.Table.Rows {
-				if row.Geom == nil {
-					continue
+		// tables one after another through the same handles, as main.go does
+		for _, table := range tables {
+			var cur *gpkgh.Table
+			for _, tb := range tbls {
+				if tb.Name == table.Name {
+					cur = tb
 				}
-				switch row.Geom.T {
-				case gpkgh.TPolygon:
-					if len(row.Geom.L) > 0 && len(row.Geom.L[0]) > 0 {
-						byFirst[row.Geom.L[0][0]] = [2]int{i, 0}
+			}
+			if cur == nil {
+				panic("gpkgsim: source reports unknown table " + table.Name)
+			}
+			feats := featsOf[cur.Name]
+			for _, id := range ids {
+				targets[id].Table = table
+			}
+			if !pipeline {
+				ch := make(chan processing.Feature)
+				go (&simSource{feats: feats}).ReadFeatures(ch)
+				targets[0].WriteFeatures(ch)
+			} else {
+				pt := map[int]processing.Target{}
+				for id, tg := range targets {
+					pt[id] = tg
+				}
+				rowIdx := map[*feat]int{}
+				for i, f := range feats {
+					rowIdx[f] = i
+				}
+				// the snap stub needs to know which row a polygon belongs to: rows carry
+				// distinct coordinates, so look the polygon up by its first vertex
+				byFirst := map[[2]float64][2]int{}
+				for i, row := range cur.Rows {
+					if row.Geom == nil {
+						continue
 					}
-				case gpkgh.TMultiPolygon:
-					for pi, p := range row.Geom.M {
-						if len(p) > 0 && len(p[0]) > 0 {
-							byFirst[p[0][0]] = [2]int{i, pi}
+					switch row.Geom.T {
+					case gpkgh.TPolygon:
+						if len(row.Geom.L) > 0 && len(row.Geom.L[0]) > 0 {
+							byFirst[row.Geom.L[0][0]] = [2]int{i, 0}
+						}
+					case gpkgh.TMultiPolygon:
+						for pi, p := range row.Geom.M {
+							if len(p) > 0 && len(p[0]) > 0 {
+								byFirst[p[0][0]] = [2]int{i, pi}
+							}
 						}
 					}
 				}
-			}
-			processing.ProcessFeatures(&simSource{feats: feats}, pt, func(p geom.Polygon, tmIDs []int) map[int][]geom.Polygon {
-				out := map[int][]geom.Polygon{}
-				if len(p) == 0 || len(p[0]) == 0 {
-					return out
-				}
-				k, ok := byFirst[p[0][0]]
-				if !ok {
-					return out
-				}
-				for _, tm := range tmIDs {
-					if keepFor(k[0]+k[1], tm) {
-						out[tm] = []geom.Polygon{shifted(p, tm)}
+				processing.ProcessFeatures(&simSource{feats: feats}, pt, func(p geom.Polygon, tmIDs []int) map[int][]geom.Polygon {
+					out := map[int][]geom.Polygon{}
+					if len(p) == 0 || len(p[0]) == 0 {
+						return out
 					}
-				}
-				return out
-			})
+					k, ok := byFirst[p[0][0]]
+					if !ok {
+						return out
+					}
+					for _, tm := range tmIDs {
+						if keepFor(k[0]+k[1], tm) {
+							out[tm] = []geom.Polygon{shifted(p, tm)}
+						}
+					}
+					return out
+				})
+			}
 		}
 		for _, id := range ids {
 			targets[id].Close()
@@ -557,13 +639,14 @@ func runOne(t *testing.T, w *gwork, fp simrt.FaultPlan, mp simrt.MapPolicy, mapS
 			return rr
 		}
 		rr.files++
-		exp := expectedFor(w, id, pipeline)
-		// a polygon table fed with geometry that is dropped everywhere is legitimately empty
-		if m := gpkgh.CheckTable(d, exp, &w.SRS); m != nil {
-			rr.violation = &simh.Violation{Class: "file/" + m.Class, Message: fmt.Sprintf("target %d (page size %d, %d features handed over, %s): %s", id, w.PageSize, len(exp.Rows), w.Relation, m.Msg)}
-			return rr
+		for _, tb := range tbls {
+			exp := expectedFor(tb, id, pipeline)
+			if m := gpkgh.CheckTable(d, exp, &w.SRS); m != nil {
+				rr.violation = &simh.Violation{Class: "file/" + m.Class, Message: fmt.Sprintf("target %d (page size %d, %d tables, %d features of this table expected, %s): %s", id, w.PageSize, len(tbls), len(exp.Rows), w.Relation, m.Msg)}
+				return rr
+			}
 		}
-		if len(d.UserTables) != 1 {
+		if len(d.UserTables) != len(tbls) {
 			rr.violation = &simh.Violation{Class: "file/extra-tables", Message: fmt.Sprintf("target %d holds tables %v", id, d.UserTables)}
 			return rr
 		}
@@ -614,6 +697,9 @@ func runOne(t *testing.T, w *gwork, fp simrt.FaultPlan, mp simrt.MapPolicy, mapS
 	if pipeline && len(ids) > 1 {
 		p.Inc("several-writers-flushing-concurrently")
 	}
+	if len(tbls) > 1 {
+		p.Inc("two-tables-through-the-same-target-handle")
+	}
 	rr.nontriv = c > 0
 	return rr
 }
@@ -650,12 +736,12 @@ func TestVerifGpkgsim(t *testing.T) {
 			w, fp, mp, mapSeed := genWork(seed)
 			sink := simh.StreamReplay(job, func() interface{} {
 				return replayFile{Property: job.Property, Engine: "gpkgsim", Seed: seed, Workload: w, Faults: fp, MapPolicy: mp.String(), MapSeed: mapSeed,
-					ShrinkArrays: []string{"workload.table.rows", "workload.targets"}, ShrinkInts: []string{"workload.page_size"}}
+					ShrinkArrays: []string{"workload.more_tables", "workload.table.rows", "workload.more_tables.*.rows", "workload.targets"}, ShrinkInts: []string{"workload.page_size"}}
 			})
 			tapeSink = sink
 			onFatal = func(v *simh.Violation) {
 				rf := replayFile{Property: job.Property, Engine: "gpkgsim", Seed: seed, Workload: w, Faults: fp, MapPolicy: mp.String(), MapSeed: mapSeed,
-					Violation: v, ShrinkArrays: []string{"workload.table.rows", "workload.targets"}, ShrinkInts: []string{"workload.page_size"}}
+					Violation: v, ShrinkArrays: []string{"workload.more_tables", "workload.table.rows", "workload.more_tables.*.rows", "workload.targets"}, ShrinkInts: []string{"workload.page_size"}}
 				out.Line(map[string]interface{}{"t": "violation", "seed": seed, "replay": rf})
 				os.Exit(0)
 			}
@@ -683,7 +769,7 @@ func TestVerifGpkgsim(t *testing.T) {
 				sum.Oracles.Inc("known:" + rr.violation.Class)
 			} else if rr.violation != nil {
 				rf := replayFile{Property: job.Property, Engine: "gpkgsim", Seed: seed, Workload: w, Faults: fp, MapPolicy: mp.String(), MapSeed: mapSeed,
-					Tape: rr.sim.Tape, Violation: rr.violation, ShrinkArrays: []string{"workload.table.rows", "workload.targets"}, ShrinkInts: []string{"workload.page_size"}, Trace: rr.sim.Trace}
+					Tape: rr.sim.Tape, Violation: rr.violation, ShrinkArrays: []string{"workload.more_tables", "workload.table.rows", "workload.more_tables.*.rows", "workload.targets"}, ShrinkInts: []string{"workload.page_size"}, Trace: rr.sim.Trace}
 				out.Line(map[string]interface{}{"t": "violation", "seed": seed, "replay": rf})
 				break
 			}
